@@ -863,6 +863,19 @@ func cmdCheck(args []string) int {
 		if c.v.Oracle == "harness-race" {
 			fatal2("race inside the harness itself (machinery bug): %s\n%s", c.v.Key, c.v.Detail)
 		}
+		if c.v.Oracle == "liveness" && c.v.Key == "step-budget" {
+			// a generated world can be honestly enormous (nested ranges over long lists below yields): about
+			// two runs in a million on the unchanged library. Reported only when a hundred times as
+			// frequent as that, and at least 5 runs: then it is a loop the library does not leave.
+			limit := int64(5)
+			if l := (done + raceDone) / 5000; l > limit {
+				limit = l
+			}
+			agg.stats["counters:runs_stopped_by_the_step_budget"] = int64(c.n)
+			if int64(c.n) < limit {
+				continue
+			}
+		}
 		if f := known.match(prop, c.v); f != nil {
 			knownLines = append(knownLines, fmt.Sprintf("KNOWN-FINDING: property=%s oracle=%s key=%s seen=%d witness=%s", prop, c.v.Oracle, c.v.Key, c.n, f.Witness))
 			agg.knownSeen++
